@@ -2,7 +2,7 @@
 (* Laws of the query grammar over the whole bounded query space x package universe:
    rendering and parsing are inverse, plain atoms select what atoms match, dropping a
    constraint never loses a package, blockers are rejected.                            *)
-EXTENDS QueryGlob_Cases, TLC
+EXTENDS QueryGlob_Export     \* (its ASSUME writes the case file when IOEnv.OUT is set: one TLC run does both)
 VARIABLES q, p
 vars == <<q, p>>
 None == [cat |-> <<>>]
@@ -12,8 +12,8 @@ Spec == Init /\ [][Next]_vars
 RoundTrip == p = None => ParseQ(RenderQ(q)) = (IF Carved(q) THEN Unspec ELSE q)
 PlainAtomLaw == (p # None /\ IsPlainAtom(q)) => (Selects(q, p) = AtomMatches(q, p))
 Generalise == p # None /\ Selects(q, p) =>
-                 /\ Selects([q EXCEPT !.cat = Any], p) /\ Selects([q EXCEPT !.pkg = Any], p)
-                 /\ Selects([q EXCEPT !.slot = Any], p) /\ Selects([q EXCEPT !.sub = Any], p)
+                 /\ Selects([q EXCEPT !.cat = AnyPat], p) /\ Selects([q EXCEPT !.pkg = AnyPat], p)
+                 /\ Selects([q EXCEPT !.slot = AnyPat], p) /\ Selects([q EXCEPT !.sub = AnyPat], p)
                  /\ Selects([q EXCEPT !.repo = <<>>], p) /\ Selects([q EXCEPT !.op = ""], p)
 OpsPartition == p # None /\ q.op \in {"<", ">="} =>
                   (Selects([q EXCEPT !.op = "<"], p) # Selects([q EXCEPT !.op = ">="], p)) = Selects([q EXCEPT !.op = ""], p)
